@@ -223,6 +223,23 @@ Alt-Svc entry for the authority? -/
 def learnsAlt (cfg : Cfg) (req : Req) (carriedBy : Ver) (advertised : Bool) : Bool :=
   carriedBy ≠ .h3 && cfg.h3 && cfg.force = none && req.scheme = .https && advertised
 
+/-! ## Alt-Svc state is filed per origin (`netutil.AuthorityKey`: scheme, host, effective port) -/
+
+structure Origin where
+  scheme : Scheme
+  host : Nat
+  port : Nat
+  deriving DecidableEq, Repr
+
+/-- The origins for which the client holds a usable Alt-Svc entry (pending-ready or jar). -/
+abbrev AltState := List Origin
+
+/-- `handleAltSvc` / `SetAltSvc` for the origin of the request that carried the header. -/
+def altLearn (j : AltState) (o : Origin) : AltState := o :: j
+
+/-- `checkAltSvc`'s lookup for the origin of the request at hand: this is `Net.alt`. -/
+def altHas (j : AltState) (o : Origin) : Bool := j.contains o
+
 /-! ## the protocol setters of transport.go (l.514-606) -/
 
 inductive Setting
